@@ -1,21 +1,9 @@
 #![allow(dead_code)]
-mod case;
-mod crash;
-mod damage;
-mod driver;
-mod exec;
-mod findings;
-mod iotrace;
-mod model;
-mod ops;
-mod props;
-mod recover;
-mod runner;
-mod util;
 
 use std::path::PathBuf;
 
-use case::{CaseError, Tier};
+use verif_harness::case::{CaseError, Tier};
+use verif_harness::{props, runner, util};
 
 fn usage() -> ! {
     eprintln!(
